@@ -726,7 +726,27 @@ func c17CrossWrites(p *Prog, r *Report) {
 			if !isClientConn {
 				return
 			}
-			key := "cross-write:" + strings.TrimPrefix(strings.Replace(rootFn(fn).String(), modPath+"/", "", -1), "github.com/datastax/cql-proxy/")
+			// the finding is identified by what is written and on whose behalf, not by the name of
+			// the function the write happens to sit in: a backend reply passed on, a reply built by
+			// the proxy for a request, or a cluster event fanned out to the registered clients
+			kind := "request-reply-local"
+			for _, g := range withSenders(p, rootFn(fn)) {
+				eachCall(g, func(cc ssa.CallInstruction) {
+					if cm := cc.Common(); cm.IsInvoke() && cm.Method.Name() == "EncodeRawFrame" {
+						kind = "request-reply-raw"
+					}
+				})
+			}
+			onEventPath := false
+			for _, pf := range append(append([]*ssa.Function(nil), reach[fn]...), fn) {
+				if pf.Name() == "OnEvent" && recvNamed(pf) != nil && recvNamed(pf).Obj().Name() == "Proxy" {
+					onEventPath = true
+				}
+			}
+			if onEventPath {
+				kind = "event-fan-out"
+			}
+			key := "cross-write:" + kind
 			if seen[key] {
 				return
 			}
